@@ -3,6 +3,7 @@ package mon
 import (
 	"fmt"
 	"sort"
+	"strings"
 
 	"github.com/ChrisTrenkamp/xsel"
 
@@ -10,6 +11,7 @@ import (
 	"xselverif/internal/bridge"
 	"xselverif/internal/evid"
 	"xselverif/internal/refeval"
+	"xselverif/internal/rng"
 	"xselverif/internal/xast"
 )
 
@@ -97,6 +99,27 @@ func newRefWorld(d *adoc.Doc) (*world, error) {
 		return nil, err
 	}
 	return &world{d: d, m: m, env: &refeval.Env{Doc: d, NS: canonNS}, opts: nsOpts(canonNS), ref: true}, nil
+}
+
+// newXMLWorld realises the document by serialising it and reading it back
+// with xsel.ReadXml (R-xml).  The document must have been generated with
+// XMLSafe and NoAdjText; names are made XML names and the namespace
+// declarations normalised in place.
+func newXMLWorld(d *adoc.Doc, g *rng.R) (*world, error) {
+	for _, n := range d.All {
+		n.Local = strings.ReplaceAll(n.Local, "#", "h")
+	}
+	d.NormalizeNS(g)
+	d.Finish()
+	root, err := xsel.ReadXml(strings.NewReader(d.ToXML(adoc.XMLOpts{})))
+	if err != nil {
+		return nil, fmt.Errorf("ReadXml: %v", err)
+	}
+	m, err := bridge.Build(root, d)
+	if err != nil {
+		return nil, err
+	}
+	return &world{d: d, m: m, env: &refeval.Env{Doc: d, NS: canonNS}, opts: nsOpts(canonNS)}, nil
 }
 
 // libEval executes expr from node n through the public API and converts the result.
